@@ -55,7 +55,7 @@ def configs(tier):
             out.append(dict(kind="hetero", labels=nl, dofs=dofs))
         out.append(dict(kind="threshold", labels=nl, upper=True))
         out.append(dict(kind="threshold", labels=nl, upper=False))
-    for first in ([2, 2], [2, 4], [8, 8]):
+    for first in (([2, 2], [2, 4], [8, 8]) if q else ([2, 2], [2, 4], [8, 8], [1, 1], [3, 5], [4, 2], [16, 16])):
         out.append(dict(kind="hetero_history", first=first))
     out.append(dict(kind="threshold", labels=0, upper=True))
     out.append(dict(kind="threshold", labels=0, upper=False))
